@@ -62,15 +62,16 @@ type c18Obs struct {
 	SrvFinal   int  `json:"srv_final,omitempty"`
 	ConnectErr bool `json:"connect_err,omitempty"`
 	// e2e, while the session is up: successful pings so far / keep-alive bytes the server then saw in the XML stream (bounded wait)
-	MidWant        int       `json:"mid_want,omitempty"`
-	MidGot         int       `json:"mid_got,omitempty"`
-	LostWhileUp    bool      `json:"lost_while_up,omitempty"`    // e2e: Disconnected before the harness ended the session
-	RawBad         string    `json:"raw_bad,omitempty"`          // e2e over TLS: first thing on the socket that is not a TLS record
-	DetectUs       int64     `json:"detect_us,omitempty"`        // ws: from the cut to the Disconnected event
-	PanicMsg       string    `json:"panic_msg,omitempty"`        // the keep-alive goroutine panicked with this
-	CloseAfterFail bool      `json:"close_after_fail,omitempty"` // the failed ping was answered by Close
-	Re             *c18ReObs `json:"re,omitempty"`               // kind re: sessions and loops on one client object
-	Wire           string    `json:"wire,omitempty"`             // tcp/e2e: what the server read in the XML stream where keep-alives go
+	MidWant          int       `json:"mid_want,omitempty"`
+	MidGot           int       `json:"mid_got,omitempty"`
+	LostWhileUp      bool      `json:"lost_while_up,omitempty"`       // e2e: Disconnected before the harness ended the session
+	RawBad           string    `json:"raw_bad,omitempty"`             // e2e over TLS: first thing on the socket that is not a TLS record
+	DetectUs         int64     `json:"detect_us,omitempty"`           // ws: from the cut to the Disconnected event
+	PanicMsg         string    `json:"panic_msg,omitempty"`           // the keep-alive goroutine panicked with this
+	CloseAfterFail   bool      `json:"close_after_fail,omitempty"`    // the failed ping was answered by Close
+	AfterOwnCloseTag string    `json:"after_own_close_tag,omitempty"` // e2e discslow: what the client wrote behind its own closing tag
+	Re               *c18ReObs `json:"re,omitempty"`                  // kind re: sessions and loops on one client object
+	Wire             string    `json:"wire,omitempty"`                // tcp/e2e: what the server read in the XML stream where keep-alives go
 }
 
 // kaIsWS: XML white space. A whitespace keep-alive is any non-empty run of it (the property
@@ -138,7 +139,7 @@ func (c18) Workers() int  { return 8 }
 // driver then finds the case through the per-worker journal.
 func (c18) Journal() bool { return true }
 func (c18) Rule() string {
-	return "keepalive goroutine (VerifKeepalive) on a recording stub transport, intervals 1-10 ms: run for T then close quit; quit closed at a random phase of the ticker (0-5 intervals + 0-99 %, incl. exactly on a tick); quit closed before the goroutine starts; Ping failing at the k-th call for every k in 1..10 x interval; interval 0 / negative. Real XMPPTransport over loopback TCP (scripted server records every byte after the stream header): healthy run, server resets / closes the connection after reading n bytes (Close waiting out its timeout or answered at once). Real XMPPTransport over a scripted net.Conn: every conn.Write / conn.Close call, scripted write results (short and over-long counts; errors of every KIND: plain, a net.Error with Timeout() true as an expired write deadline or ETIMEDOUT gives, a temporary net.Error, io.EOF, os.ErrDeadlineExceeded, io.ErrShortWrite; after an error the connection stays dead for writing IN THE SAME WAY while reads block: whatever the kind, the keep-alive could not be written, so Close must follow and the loss be reported), with and without a real Client receive loop blocked on the same connection and sharing quit: the connection must get closed after the failed keep-alive and the loss be reported (ErrorHandler, Disconnected). End to end: real Client.Connect (KeepaliveInterval 2-5 ms) against the scripted XMPP server (SASL PLAIN + bind), session up for T, then ended by a server reset / the server's </stream:stream> / Client.Disconnect at a random phase; Ping and Close calls logged by a wrapper around the client's transport, keep-alive bytes counted at the server; after the Disconnected event + grace nothing may be pinged for 10 more intervals; sessions ended by a server <stream:error/> with application callbacks that BLOCK (the StateStreamError handler for 6.5 intervals, the error callback for 2; they run synchronously in the receive loop): from the moment the stream error is received (+ half an interval) no Ping call and no keep-alive byte at the server, although the handlers are still running; the same over real STARTTLS with the certificate verified (RootCAs) and with InsecureSkipVerify: the keep-alive bytes must show up in the DECRYPTED stream at the server, the raw socket must carry nothing but TLS records, the session must not be torn down while it is up. WebSocket transport end to end (loopback nhooyr.io/websocket server, RFC 7395 open exchange, keepalive + receive loop started as Client.Connect does): pings answered for T, then the TCP connection underneath is reset / closed: the failed keep-alive (a WebSocket ping control frame, not whitespace: only the closed-so-that-the-loss-is-reported clause is checked there) the loss must be reported exactly once (ErrorHandler + Disconnected) by whichever path notices first - the transport's reader or the failing keep-alive, which then calls Close - and the keep-alive loop be over; and a peer that goes SILENT without closing (a TCP relay stops forwarding; reads just block): only the keep-alive can notice, its ping times out after the library's 5 s, Close follows, the loss is reported once. Sessions on ONE Client object (the Transport is re-used by Resume; every Ping/Close logged with its goroutine, keep-alive bytes counted per server connection): drop then Resume; a stream error during which the keep-alive fails while the receiver sits in Close (ConnectTimeout 1 s), then Resume: the Close entered for session 1 must not close session 2's connection; a stream error whose StateStreamError handler does what a StreamManager does (Disconnect, back-off, Resume, returning only when the new session is up): no keep-alive of the dead session on ANY connection of the client from the stream error until the new session is up; the loop HELD at the entry of transport.Ping (i.e. past its poll of quit: where the scheduler may stop it) while the session ends and the client is resumed: that one ping may go out, on the new connection, and is the only one; held again after a refused re-dial so that the ping fails for want of a connection, and at the entry of Close while a second re-dial succeeds: the loop must not answer that failure with Close (it would close the new session); a keep-alive that fails towards a peer gone silent (TCP relay frozen, failure injected at the Transport boundary) whose Close is still waiting for the peer's closing tag (ConnectTimeout 1 s) when the connection is reset and the client resumed: when that Close finally acts, the second session's transport must be untouched - its keep-alives go on being written on ITS connection, nothing closes or forgets it; a PostConnectHook that fails (Connect returns its error: the session must not be left up without keep-alive and receiver); a PostResumeHook that fails once: exactly one keep-alive loop per established session, none left by the failed attempt, its session closed. A negative KeepaliveInterval through NewClient/Connect (a crash of the library's goroutine is found through the crash journal). WebSocket: Disconnect while a keep-alive ping awaits its pong (the failed ping is answered with a second Close, which must not panic). The liveness bound applies to windows of at least 6 intervals and 30 ms. The model receives the observed schedule (successful pings before the terminating event, how the run ended) plus a random continuation and must reproduce the ordered log ping-ok/ping-failed/Close/loop-over, the number of keep-alives the server reads, the calls on the connection and the reporting of the loss. A keep-alive is compared as a CLASS: any non-empty run of XML white space (space, tab, CR, LF) written by one Ping, on the connection and in the stream the server reads; what happens for an interval <= 0 is outside the property and not compared beyond nothing-sent-nothing-closed; distinct = scenario parameters; non-trivial = at least 2 pings before the terminating event"
+	return "keepalive goroutine (VerifKeepalive) on a recording stub transport, intervals 1-10 ms: run for T then close quit; quit closed at a random phase of the ticker (0-5 intervals + 0-99 %, incl. exactly on a tick); quit closed before the goroutine starts; Ping failing at the k-th call for every k in 1..10 x interval; interval 0 / negative. Real XMPPTransport over loopback TCP (scripted server records every byte after the stream header): healthy run, server resets / closes the connection after reading n bytes (Close waiting out its timeout or answered at once). Real XMPPTransport over a scripted net.Conn: every conn.Write / conn.Close call, scripted write results (short and over-long counts; errors of every KIND: plain, a net.Error with Timeout() true as an expired write deadline or ETIMEDOUT gives, a temporary net.Error, io.EOF, os.ErrDeadlineExceeded, io.ErrShortWrite; after an error the connection stays dead for writing IN THE SAME WAY while reads block: whatever the kind, the keep-alive could not be written, so Close must follow and the loss be reported), with and without a real Client receive loop blocked on the same connection and sharing quit: the connection must get closed after the failed keep-alive and the loss be reported (ErrorHandler, Disconnected). End to end: real Client.Connect (KeepaliveInterval 2-5 ms) against the scripted XMPP server (SASL PLAIN + bind), session up for T, then ended by a server reset / the server's </stream:stream> / Client.Disconnect at a random phase; Ping and Close calls logged by a wrapper around the client's transport, keep-alive bytes counted at the server; after the Disconnected event + grace nothing may be pinged for 10 more intervals; sessions ended by Client.Disconnect with a server that is slow to answer the closing tag (a TCP relay withholds its answers and records what the client writes; Close waits ConnectTimeout, 1 s): from the call of Disconnect on (+ half an interval) no Ping, and nothing but at most the one keep-alive already under way behind the client's own </stream:stream>; sessions ended by a server <stream:error/> with application callbacks that BLOCK (the StateStreamError handler for 6.5 intervals, the error callback for 2; they run synchronously in the receive loop): from the moment the stream error is received (+ half an interval) no Ping call and no keep-alive byte at the server, although the handlers are still running; the same over real STARTTLS with the certificate verified (RootCAs) and with InsecureSkipVerify: the keep-alive bytes must show up in the DECRYPTED stream at the server, the raw socket must carry nothing but TLS records, the session must not be torn down while it is up. WebSocket transport end to end (loopback nhooyr.io/websocket server, RFC 7395 open exchange, keepalive + receive loop started as Client.Connect does): pings answered for T, then the TCP connection underneath is reset / closed: the failed keep-alive (a WebSocket ping control frame, not whitespace: only the closed-so-that-the-loss-is-reported clause is checked there) the loss must be reported exactly once (ErrorHandler + Disconnected) by whichever path notices first - the transport's reader or the failing keep-alive, which then calls Close - and the keep-alive loop be over; and a peer that goes SILENT without closing (a TCP relay stops forwarding; reads just block): only the keep-alive can notice, its ping times out after the library's 5 s, Close follows, the loss is reported once. Sessions on ONE Client object (the Transport is re-used by Resume; every Ping/Close logged with its goroutine, keep-alive bytes counted per server connection): drop then Resume; a stream error during which the keep-alive fails while the receiver sits in Close (ConnectTimeout 1 s), then Resume: the Close entered for session 1 must not close session 2's connection; a stream error whose StateStreamError handler does what a StreamManager does (Disconnect, back-off, Resume, returning only when the new session is up): no keep-alive of the dead session on ANY connection of the client from the stream error until the new session is up; the loop HELD at the entry of transport.Ping (i.e. past its poll of quit: where the scheduler may stop it) while the session ends and the client is resumed: that one ping may go out, on the new connection, and is the only one; held again after a refused re-dial so that the ping fails for want of a connection, and at the entry of Close while a second re-dial succeeds: the loop must not answer that failure with Close (it would close the new session); a keep-alive that fails towards a peer gone silent (TCP relay frozen, failure injected at the Transport boundary) whose Close is still waiting for the peer's closing tag (ConnectTimeout 1 s) when the connection is reset and the client resumed: when that Close finally acts, the second session's transport must be untouched - its keep-alives go on being written on ITS connection, nothing closes or forgets it; a PostConnectHook that fails (Connect returns its error: the session must not be left up without keep-alive and receiver, and the client's state must be Disconnected again); a PostResumeHook that fails once: exactly one keep-alive loop per established session, none left by the failed attempt, its session closed. A negative KeepaliveInterval through NewClient/Connect (a crash of the library's goroutine is found through the crash journal). WebSocket: Disconnect while a keep-alive ping awaits its pong (the failed ping is answered with a second Close, which must not panic). The liveness bound applies to windows of at least 6 intervals and 30 ms. The model receives the observed schedule (successful pings before the terminating event, how the run ended) plus a random continuation and must reproduce the ordered log ping-ok/ping-failed/Close/loop-over, the number of keep-alives the server reads, the calls on the connection and the reporting of the loss. A keep-alive is compared as a CLASS: any non-empty run of XML white space (space, tab, CR, LF) written by one Ping, on the connection and in the stream the server reads; what happens for an interval <= 0 is outside the property and not compared beyond nothing-sent-nothing-closed; distinct = scenario parameters; non-trivial = at least 2 pings before the terminating event"
 }
 
 func c18Suffix(r *rand.Rand) []int {
@@ -284,6 +285,10 @@ func (c18) Gen(r *rand.Rand, tier string) []interface{} {
 	}
 	for i := 0; i < nserr; i++ {
 		add(&c18In{Kind: "e2e", End: "serr", IvUs: 1000 * (4 + r.Intn(5)), Ticks: 6 + r.Intn(8), PhasePct: r.Intn(100)})
+	}
+	// ... by Client.Disconnect with a server that is slow to answer the closing tag (Close waits ConnectTimeout, 1 s)
+	for i := 0; i < nserr; i++ {
+		add(&c18In{Kind: "e2e", End: "discslow", IvUs: 1000 * (4 + r.Intn(5)), Ticks: 6 + r.Intn(8), PhasePct: r.Intn(100)})
 	}
 	// ... over STARTTLS, certificate verified or not (the scripted server cannot push inside TLS: no srvclose)
 	for i := 0; i < ne2e; i++ {
@@ -1115,8 +1120,18 @@ func runKeepaliveE2E(in *c18In, attempt int) (Sx, *c18Obs) {
 		return setupErr("listen: " + err.Error())
 	}
 	defer srv.stop()
+	addr := srv.addr()
+	var relay *kaRelay
+	if in.End == "discslow" {
+		// a path on which the server's answers can be withheld while everything the client writes is recorded
+		if relay, err = newKaRelay(addr); err != nil {
+			return setupErr("relay: " + err.Error())
+		}
+		defer relay.close()
+		addr = relay.ln.Addr().String()
+	}
 	cfg := &xmpp.Config{
-		TransportConfiguration: xmpp.TransportConfiguration{Address: srv.addr(), Domain: srvDomain, ConnectTimeout: 1},
+		TransportConfiguration: xmpp.TransportConfiguration{Address: addr, Domain: srvDomain, ConnectTimeout: 1},
 		Jid:                    "user@" + srvDomain, Credential: xmpp.Password("secret"), Insecure: true,
 		ConnectTimeout: 1, KeepaliveInterval: iv,
 	}
@@ -1218,6 +1233,14 @@ func runKeepaliveE2E(in *c18In, attempt int) (Sx, *c18Obs) {
 		srv.push(0, "</stream:stream>")
 	case "serr":
 		srv.push(0, sItem{T: "serr", Cond: "system-shutdown"}.xml())
+	case "discslow":
+		// the application ends the session; the server is in no hurry to answer the closing tag: Close waits
+		// (ConnectTimeout, 1 s); what the client writes meanwhile is recorded on the way
+		atomic.StoreInt32(&relay.frozenS2C, 1)
+		mu.Lock()
+		serrAt = time.Now() // the session is over when Disconnect is called
+		mu.Unlock()
+		go client.Disconnect()
 	default:
 		go client.Disconnect()
 	}
@@ -1231,7 +1254,7 @@ func runKeepaliveE2E(in *c18In, attempt int) (Sx, *c18Obs) {
 		grace = 40 * time.Millisecond
 	}
 	time.Sleep(grace)
-	if in.End != "serr" {
+	if in.End != "serr" && in.End != "discslow" {
 		rec.add(kaReturn) // from here on the keep-alive loop must be gone
 	}
 	atEnd := 0
@@ -1245,6 +1268,18 @@ func runKeepaliveE2E(in *c18In, attempt int) (Sx, *c18Obs) {
 	}
 	time.Sleep(window)
 	evs := rec.snapshot()
+	var afterTag []byte
+	if in.End == "discslow" {
+		// the stream as the client wrote it: what follows its own closing tag?
+		sent := relay.sent(0)
+		if i := bytes.Index(sent, []byte("</stream:stream>")); i >= 0 {
+			afterTag = sent[i+len("</stream:stream>"):]
+		}
+		mu.Lock()
+		at := serrAt
+		mu.Unlock()
+		evs = kaInsertMarker(evs, at.Add(iv/2))
+	}
 	if in.End == "serr" {
 		// the session was over when the stream error arrived, long before the callbacks returned
 		mu.Lock()
@@ -1259,7 +1294,9 @@ func runKeepaliveE2E(in *c18In, attempt int) (Sx, *c18Obs) {
 	}
 	var wire []byte
 	rawBad := ""
-	if logs := srv.snapshot(); len(logs) > 0 {
+	if in.End == "discslow" {
+		wire, _ = kaKeepaliveBytes(relay.sent(0))
+	} else if logs := srv.snapshot(); len(logs) > 0 {
 		wire, _ = kaKeepaliveBytes(stream(logs[0]))
 		if in.TLS != "" {
 			rawBad = kaNotTLSRecords(logs[0].RawBy)
@@ -1270,12 +1307,16 @@ func runKeepaliveE2E(in *c18In, attempt int) (Sx, *c18Obs) {
 	o.ErrCalls, o.DiscEvents = errCalls, discEvents
 	mu.Unlock()
 	wsx, units := kaWireSx(wire, o.NSucc, true)
-	if in.End != "srvclose" && in.End != "serr" {
+	if in.End != "srvclose" && in.End != "serr" && in.End != "discslow" {
 		wsx, units = kaWireSx(wire, len(o.PingUs), false)
 	}
 	o.Wire = string(wire)
 	o.SrvN, o.SrvAtEnd, o.SrvFinal = units, atEnd, len(wire)
 	o.MidWant, o.MidGot, o.LostWhileUp, o.RawBad = midWant, midGot, lostWhileUp, rawBad
+	o.AfterOwnCloseTag = string(afterTag)
+	if in.End == "discslow" {
+		o.SrvAtEnd = o.SrvFinal // the byte count is judged through AfterOwnCloseTag
+	}
 	if in.End == "srvclose" {
 		go client.Disconnect() // the transport is still open: let it go (up to ConnectTimeout, in the background)
 	}
@@ -1351,11 +1392,13 @@ func (l *kaKeepListener) cut(fin bool) {
 // kaRelay: a TCP path between client and server that can go SILENT: both connections stay open, nothing
 // is forwarded any more (a black-holed route, a peer that froze): reads just block, no error on either side.
 type kaRelay struct {
-	ln     net.Listener
-	frozen int32
-	mu     sync.Mutex
-	conns  []net.Conn
-	stop   chan struct{}
+	ln        net.Listener
+	frozenS2C int32    // only the server's answers are withheld
+	c2s       [][]byte // what each accepted connection sent towards the server, recorded here
+	frozen    int32
+	mu        sync.Mutex
+	conns     []net.Conn
+	stop      chan struct{}
 }
 
 func newKaRelay(target string) (*kaRelay, error) {
@@ -1377,18 +1420,25 @@ func newKaRelay(target string) (*kaRelay, error) {
 			}
 			r.mu.Lock()
 			r.conns = append(r.conns, c, s)
+			idx := len(r.c2s)
+			r.c2s = append(r.c2s, nil)
 			r.mu.Unlock()
-			go r.pipe(c, s)
-			go r.pipe(s, c)
+			go r.pipe(c, s, idx)
+			go r.pipe(s, c, -1)
 		}
 	}()
 	return r, nil
 }
-func (r *kaRelay) pipe(src, dst net.Conn) {
+func (r *kaRelay) pipe(src, dst net.Conn, c2s int) {
 	buf := make([]byte, 32768)
 	for {
 		n, err := src.Read(buf)
-		if atomic.LoadInt32(&r.frozen) == 1 {
+		if c2s >= 0 && n > 0 {
+			r.mu.Lock()
+			r.c2s[c2s] = append(r.c2s[c2s], buf[:n]...)
+			r.mu.Unlock()
+		}
+		if atomic.LoadInt32(&r.frozen) == 1 || (c2s < 0 && atomic.LoadInt32(&r.frozenS2C) == 1) {
 			<-r.stop
 			return
 		}
@@ -1403,6 +1453,14 @@ func (r *kaRelay) pipe(src, dst net.Conn) {
 }
 func (r *kaRelay) freeze()   { atomic.StoreInt32(&r.frozen, 1) }
 func (r *kaRelay) unfreeze() { atomic.StoreInt32(&r.frozen, 0) }
+func (r *kaRelay) sent(i int) []byte {
+	r.mu.Lock()
+	defer r.mu.Unlock()
+	if i >= len(r.c2s) {
+		return nil
+	}
+	return append([]byte{}, r.c2s[i]...)
+}
 
 // cutClients resets every connection accepted so far on the client's side.
 func (r *kaRelay) cutClients() {
@@ -1599,6 +1657,10 @@ func (c18) Input(inp interface{}) Sx {
 			// the server goes on reading after its stream error: every keep-alive written arrives
 			lossy, end = false, 3
 		}
+		if in.End == "discslow" {
+			// everything the client wrote is recorded on the way; Close gives up waiting and closes the connection
+			lossy, end = false, 1
+		}
 		if len(o.PingUs) > o.NSucc {
 			term, failAt = 1, o.NSucc+1 // a keep-alive hit the dying connection before quit was seen: observed
 		}
@@ -1671,6 +1733,9 @@ func (c18) Oracle(inp interface{}, obs Sx) (string, string) {
 	if firstRet >= 0 && firstRet != len(codes)-1 {
 		for _, c := range codes[firstRet+1:] {
 			if c == kaPingOk || c == kaPingFail {
+				if in.Kind == "e2e" && in.End == "discslow" {
+					return fmt.Sprintf("the application called Disconnect, yet keep-alives went on while Close waited for the server's closing tag (log %v: 3 = Disconnect called + half an interval)", codes), "ping-after-session-end"
+				}
 				if in.Kind == "e2e" && in.End == "serr" {
 					return fmt.Sprintf("session ended by the server's stream error, yet keep-alives went on while the application's handlers were running (log %v: 3 = stream error received + half an interval)", codes), "ping-after-session-end"
 				}
@@ -1762,6 +1827,12 @@ func (c18) Oracle(inp interface{}, obs Sx) (string, string) {
 		}
 		if o.DiscEvents < 1 {
 			return "session ended by " + in.End + " but no Disconnected event within 5 s", "loss-not-reported"
+		}
+		if in.End == "discslow" && len(strings.TrimSpace(o.AfterOwnCloseTag)) == 0 && len(o.AfterOwnCloseTag) > 1 {
+			return fmt.Sprintf("the application called Disconnect; while Close waited for the server's closing tag the client wrote %d keep-alive bytes BEHIND its own </stream:stream> (one already under way is tolerated)", len(o.AfterOwnCloseTag)), "keepalive-after-own-stream-close"
+		}
+		if in.End == "discslow" && len(strings.TrimSpace(o.AfterOwnCloseTag)) != 0 {
+			return fmt.Sprintf("behind its own </stream:stream> the client wrote %q", o.AfterOwnCloseTag), "data-after-own-stream-close"
 		}
 		if in.End == "serr" && o.SrvFinal != o.SrvAtEnd {
 			return fmt.Sprintf("the server's stream error ended the session; while the application's stream-error handler and error callback were running (8 intervals) the server read %d more keep-alive bytes", o.SrvFinal-o.SrvAtEnd), "ping-after-session-end"
